@@ -755,8 +755,25 @@ def _check_partition(ctx):
         raise AnalysisError('needs_refcounting declarations not found in PyrexTypes')
 
 
+def _mentions_return_type(ctx, owner, fn):
+    """does the function (or a self.helper it calls) look at a return type at all?  If not, the classes of the partition only differ
+    in whether the result variable holds a reference, and one class of each kind is enough."""
+    fns = [fn]
+    if owner is not None:
+        for c in ast.walk(fn):
+            if isinstance(c, ast.Call) and isinstance(c.func, ast.Attribute) and isinstance(c.func.value, ast.Name) and c.func.value.id == 'self':
+                r = ctx.index.find_method(owner, c.func.attr)
+                if r:
+                    fns.append(r[1])
+    for f in fns:
+        for n in ast.walk(f):
+            if isinstance(n, ast.Attribute) and (RT_NAME.search(n.attr) or n.attr in RT_TABLE):
+                return True
+    return False
+
+
 def _evaluate_fn(ctx, m, qn, owner, fn, sink):
-    for rt in RTYPES:
+    for rt in (RTYPES if _mentions_return_type(ctx, owner, fn) else ('object', 'plain')):
         ev = Ev(ctx, m, owner, fn, qn, rt, sink)
         init = frozenset(('cur', k, ('lab', k, 'outer')) for k in KINDS)
         try:
